@@ -774,3 +774,51 @@ pub fn t_liq_two_same_block(p: P) -> impl Fn() {
         r.step(Op::Liquidate { by: LIQ, trader: BOB, limit: Uint128::zero() });
     }
 }
+
+/// T-two-vamms: two registered vAMMs; trades, a funding settlement and a liquidation on one must
+/// not touch positions, reserves or the funding state of the other
+pub fn t_two_vamms(p: P) -> impl Fn() {
+    move || {
+        let mut cfg = p.cfg();
+        let d = cfg.d();
+        cfg.n_vamms = 2;
+        cfg.init_ratio = Uint128::new(d / 10);
+        let mut r = p.run_cfg(cfg);
+        p.prefix_mode();
+        let l = Uint128::new(10 * d);
+        let on = |r: &mut Run, vi: usize, op: Op| {
+            r.vi = vi;
+            let rec = r.step(op);
+            r.vi = 0;
+            rec.tx.ok
+        };
+        let f = funds_for(&r, &p, Uint128::new(25 * d), l);
+        if !on(&mut r, 0, Op::Open { who: ALICE, side: p.side.clone(), margin: Uint128::new(25 * d), lev: l, limit: Uint128::zero(), funds: f }) {
+            return;
+        }
+        let f = funds_for(&r, &p, Uint128::new(20 * d), l);
+        if !on(&mut r, 1, Op::Open { who: ALICE, side: opp(&p.side), margin: Uint128::new(20 * d), lev: l, limit: Uint128::zero(), funds: f }) {
+            return;
+        }
+        r.w.next_block(15);
+        let f = funds_for(&r, &p, Uint128::new(45 * d), l);
+        if !on(&mut r, 0, Op::Open { who: BOB, side: opp(&p.side), margin: Uint128::new(45 * d), lev: l, limit: Uint128::zero(), funds: f }) {
+            return;
+        }
+        let m = amount("m1", d, false, 10);
+        let f = funds_for(&r, &p, m, l);
+        symrt::set_full(true);
+        on(&mut r, 1, Op::Open { who: BOB, side: p.side.clone(), margin: m, lev: l, limit: Uint128::zero(), funds: f });
+        r.w.next_block(86_400);
+        let now = r.w.now();
+        r.w.set_oracle(Uint128::new(9 * d), now);
+        on(&mut r, 1, Op::PayFunding { by: EVE });
+        r.w.next_block(1000);
+        on(&mut r, 0, Op::Liquidate { by: LIQ, trader: ALICE, limit: Uint128::zero() });
+        r.w.next_block(15);
+        let w = amount("wd", d, false, 1);
+        on(&mut r, 1, Op::Withdraw { who: ALICE, amount: w });
+        on(&mut r, 1, Op::Close { who: ALICE, limit: Uint128::zero() });
+        on(&mut r, 0, Op::Close { who: BOB, limit: Uint128::zero() });
+    }
+}
